@@ -10,7 +10,7 @@
 // case -1: <default body>; default: <the original select> (pass-through) }; time.Sleep -> vsched.Sleep;
 // sync.Mutex / RWMutex / Once -> vsched types. With -points a vsched.Point("fn:<pkg>.<name>") is
 // inserted at the entry of every function of the hand-written packages. With -antlr the mutex.go of
-// the ANTLR runtime is replaced as well. sync.WaitGroup, time.After / Now / Since are mapped to scheduler-aware equivalents; sync/atomic needs no
+// the ANTLR runtime is replaced as well. sync.WaitGroup, sync.Pool, time.After / Now / Since are mapped to scheduler-aware equivalents; sync/atomic needs no
 // rewriting. A construct the rewriter does not know (sync.Cond, reflect.Select, timers and tickers) aborts with
 // exit status 2.
 package main
@@ -215,7 +215,7 @@ func rewriteFile(path, pkgLabel string, points bool, syncOnly bool) ([]byte, sta
 			}
 			if syncName != "" && id.Name == syncName {
 				switch n.Sel.Name {
-				case "Mutex", "RWMutex", "Once", "WaitGroup":
+				case "Mutex", "RWMutex", "Once", "WaitGroup", "Pool":
 					c.Replace(sel(n.Sel.Name))
 					st.Sync++
 				default:
